@@ -2979,7 +2979,14 @@ def are_co_aligned(*exprs):
 
 
 def is_valid_blockwise_op(expr):
-    return isinstance(expr, Blockwise) and not isinstance(expr, (FromPandas, FromArray))
+    return (
+        isinstance(expr, Blockwise)
+        and not isinstance(expr, (FromPandas, FromArray))
+        # Fusion relies on ``_task(i)`` only using partition ``i`` of the
+        # dependencies; expressions with their own layer (e.g. loc with a
+        # slice or list) select other partitions
+        and type(expr)._layer is Expr._layer
+    )
 
 
 def optimize_blockwise_fusion(expr):
